@@ -96,8 +96,8 @@ macro_rules! impl_hyper_dual_mn {
             }
 
             #[getter]
-            pub fn get_second_derivative(&self) -> Option<[[f64; $m]; $n]> {
-                self.0.eps1eps2.0.as_ref().map(|eps1eps2| eps1eps2.data.0)
+            pub fn get_second_derivative(&self) -> Option<[[f64; $n]; $m]> {
+                self.0.eps1eps2.0.as_ref().map(|eps1eps2| eps1eps2.transpose().data.0)
             }
         }
 
